@@ -1,7 +1,7 @@
 SPECIFICATION SSpec
 CONSTANTS
   Names = {"a", "b", "c"}
-  Contents = {"x", "y"}
+  Contents = {"x", "y", ""}
   MaxDepth = 3
   Probes = 0
   MaxNodes = 99
